@@ -70,3 +70,72 @@ def run_class(key, clauses):
         for ob in u["obligations"]:
             ob["name"] = ob["name"].replace("L1/writer/", "").replace("L1/reader/", "")
     return out
+
+
+def roundtrip_replayer(w, r, x, tail):
+    def replay(ob):
+        import io
+        from checks.l1_serial import native_outcome, small_model
+        from spec import domains
+        conc = domains.Concretiser(small_model(ob))
+        v = conc.value(x)
+        t = conc.bterm(tail)
+        buf = io.BytesIO()
+        k, res = native_outcome(lambda: w(buf, v))
+        if k == "raise":
+            return {"confirmed": True, "input": repr(v)[:600], "expected": "encodes", "observed": f"writer raised {res.__name__}"}
+        data = buf.getvalue()
+        rb = io.BytesIO(data + t)
+        k, res = native_outcome(lambda: r(rb))
+        ok = k == "return" and res == v and rb.tell() == len(data)
+        return {"confirmed": not ok, "input": repr(v)[:600], "encoded": data.hex()[:400], "tail": t.hex()[:40],
+                "expected": {"value": "equal to input", "position": len(data)},
+                "observed": {"outcome": k, "value": repr(res)[:400], "position": rb.tell()}}
+    return replay
+
+
+def run_roundtrip(key):
+    """C01 at level 2, directly: the real read_entity body run on what the real write_entity
+    body emitted (plus an arbitrary tail) returns the instance and leaves exactly the tail.
+    Callees via contracts: a writer callee emits Enc(d_w, v), a reader callee consumes Enc(d_r, v)
+    - the composition only needs d_w == d_r at every position, not the Kafka spec."""
+    import z3
+    from contracts import entity as CE
+    from contracts import serial as CS
+    from kio.serial import entity_reader, entity_writer
+    from kvc.core import Raw, equalise, sym_eq, tobool
+    from kvc.models import Sink, Source
+    from kvc.verify import Result, collect, explore_unit, make_interp, path_obligation, run_body
+    from spec import schema_spec
+    T = resolve(key)
+    reg = CS.Registry(extra=CE.extra_lookup)
+    w, r = entity_writer(T), entity_reader(T)
+    short = key.replace("kio.schema.", "")
+    res = Result(f"L2/{short}/roundtrip")
+
+    def run(ctx):
+        x = schema_spec.generic_entity(ctx, T, "x")
+        tail = ctx.bytes_const("tail")
+        res.replayer = roundtrip_replayer(w, r, x, tail)
+        sink = Sink(ctx)
+        it = make_interp(ctx, reg, exclude=w)
+        out = run_body(it, w, [sink, x])
+        if out.kind != "return":
+            path_obligation(res, ctx, f"{res.unit}/writer-accepts-canonical-instance", z3.BoolVal(False),
+                            expected="normal return", got=repr(out))
+            collect(res, ctx)
+            return
+        src = Source(ctx, list(sink.out()) + [Raw(tail)])
+        it2 = make_interp(ctx, reg, exclude=r)
+        out2 = run_body(it2, r, [src])
+        if out2.kind != "return":
+            path_obligation(res, ctx, f"{res.unit}/reader-accepts-writer-output", z3.BoolVal(False),
+                            expected="a value", got=repr(out2))
+        else:
+            path_obligation(res, ctx, f"{res.unit}/decoded-equals-input", tobool(sym_eq(out2.value, x, ctx)),
+                            expected="x", got=repr(out2.value)[:300])
+            path_obligation(res, ctx, f"{res.unit}/exact-consumption", tobool(equalise(ctx, src.rest(), [Raw(tail)])),
+                            expected="rest == tail", got=repr(src.rest())[:300])
+        collect(res, ctx)
+    explore_unit(res, run)
+    return [common.summarise(res, [common.function_record(w), common.function_record(r)])]
